@@ -124,6 +124,19 @@ static std::string build_request_meta(FuzzedDataProvider &fdp, std::string const
 
 static std::string build_http(FuzzedDataProvider &fdp, std::string const &tag) {
     std::string out; int nreq = fdp.ConsumeIntegralInRange<int>(1, 3);
+    // a kept-alive connection whose requests all carry very many header lines: per-connection tables grow for one request and
+    // are re-used by the next; the leading requests are well-formed so that the connection really is kept alive
+    bool many_conn = fdp.ConsumeIntegralInRange<int>(0, 11) == 0;
+    if (many_conn) {
+        nreq = fdp.ConsumeIntegralInRange<int>(2, 4);
+        for (int r = 0; r + 1 < nreq; r++) {
+            int many = fdp.ConsumeIntegralInRange<int>(30, 150);
+            out += std::string(fdp.ConsumeBool() ? "GET /sync?it=" : "GET /async?it=") + tag + " HTTP/1.1\r\nHost: x\r\nConnection: keep-alive\r\n";
+            for (int i = 0; i < many; i++) out += "X-H" + std::to_string(i) + ": v" + std::to_string(i % 7) + "\r\n";
+            out += "\r\n";
+        }
+        nreq = 1;      // followed by one more request built like any other (possibly malformed), also with many headers
+    }
     for (int r = 0; r < nreq; r++) {
         static const char *methods[] = {"GET", "POST", "PUT", "", "G E T", "POST\x01", "HEAD", "OPTIONS"};
         std::string script, query, uri = build_request_meta(fdp, tag, script, query);
@@ -139,7 +152,7 @@ static std::string build_http(FuzzedDataProvider &fdp, std::string const &tag) {
         else if (bk == 5) { ctype = "application/octet-stream"; body.assign((size_t)fdp.ConsumeIntegralInRange<int>(0, 70000), 'x'); }
         // occasionally a large number of (well-formed) header lines: tables keyed by header count grow and, on a kept-alive
         // connection, are re-used by the next request
-        if (fdp.ConsumeIntegralInRange<int>(0, 9) == 0) {
+        if (many_conn || fdp.ConsumeIntegralInRange<int>(0, 9) == 0) {
             int many = fdp.ConsumeIntegralInRange<int>(40, 150);
             for (int i = 0; i < many; i++) out += "X-H" + std::to_string(i) + ": v" + std::to_string(i % 7) + "\r\n";
             out += "Connection: keep-alive\r\n";
